@@ -1738,7 +1738,7 @@ theorem buildRhs_accepts (cfg : Cfg) (sys : Sys) (hnd : sys.subst.Nodup) (hsub :
     unfold readExprs
     rw [if_neg (by simpa using hlen)]
     simp only [hes]
-  simp only [hre, hpy, pyNumberEntry, Bool.false_and, List.any_eq_true, Bool.false_eq_true, and_false, exists_false, if_false]
+  simp only [hre, hpy, pyNumberEntryG, Bool.false_and, List.any_eq_true, Bool.false_eq_true, and_false, exists_false, if_false]
   exact ⟨_, rfl⟩
 
 end Accept
@@ -1771,8 +1771,9 @@ theorem buildRhsG_plain (g : GCfg) (sys : Sys) (ha : g.active = []) (hc : g.cons
   have h7 : mkVarsG g sys = some (mkVars sys.subst (paramNamesOf g.toCfg sys) g.subs) := by
     simp only [mkVarsG, ha, applyActive, h4, h6, List.append_nil, applyPassive_mkVars]
   have h8 : subsKeysG g = g.subs.map Prod.fst := by simp [subsKeysG, ha, dkeys]
+  have h9 : pyKeysG g sys = dkeys g.subs := by simp [pyKeysG, ha, pyKeysActive, h4]
   unfold buildRhsG buildRhs
-  simp only [h3, h5, h6, h7, h8, List.any_map, Function.comp_def]
+  simp only [h3, h5, h6, h7, h8, h9, List.any_map, Function.comp_def]
   rfl
 
 /-- everything an accepted general `get_odesys` build passed through -/
@@ -2092,10 +2093,15 @@ theorem constants_are_substitutions (g : GCfg) (sys : Sys) (ha : g.active = [])
       have := mem_dedupKeys.mp (List.mem_filter.mp hc).1
       simp [this]
     rw [hz]; simp
+  have hpk : pyKeysG (constsAsSubs g sys) sys = pyKeysG g sys := by
+    unfold pyKeysG
+    rw [hused]
+    show pyKeysActive [] g.active ++ dkeys ((g.subs ++ usedConsts g sys.subst) ++ []) = _
+    rw [List.append_nil]
   unfold buildRhsG
   have hc' : (constsAsSubs g sys).cstr = g.cstr := rfl
   have hp' : (constsAsSubs g sys).pyNums = g.pyNums := rfl
-  simp only [hc', hp', hkeys, hpn, hvars, hall, huniq]
+  simp only [hc', hp', hkeys, hpn, hvars, hall, huniq, hpk]
 
 /-! ### `_create_odesys` with user-supplied symbols -/
 
